@@ -151,7 +151,7 @@ class Check:
         rc, out, dt = run(["lake", "build"] + targets, cwd=LEAN, timeout=3600)
         self.lake_s = dt
         self.checker_cmd = "cd /verif/lean && lake build " + " ".join(targets) + \
-            " && lake env lean " + cfg.get("audit", "") + "  (axioms of every registered theorem) + forbidden-token scan"
+            " && lake env lean " + " ".join([cfg.get("audit")] if isinstance(cfg.get("audit"), str) else (cfg.get("audit") or [])) + "  (axioms of every registered theorem) + forbidden-token scan"
         if rc != 0:
             errs = [l for l in out.splitlines() if "error" in l.lower()][:8]
             self.broken.append(("lake-build", " ".join(targets), "\n".join(errs) or out[-800:]))
@@ -165,9 +165,13 @@ class Check:
         else:
             self.broken.append(("sorry", "lake build", "declaration uses sorry"))
         # (3) audit
-        audit = cfg.get("audit")
-        names = []
-        if audit:
+        audits = cfg.get("audit") or []
+        if isinstance(audits, str):
+            audits = [audits]
+        for audit in audits:
+            if not os.path.exists(os.path.join(LEAN, audit)):
+                self.broken.append(("audit-file", audit, "missing"))
+                continue
             src = open(os.path.join(LEAN, audit)).read()
             names = re.findall(r"^#print axioms\s+(\S+)", src, re.M)
             rc, out, dt = run(["lake", "env", "lean", audit], cwd=LEAN, timeout=1800)
